@@ -71,7 +71,7 @@ PROPS = {
         "assumptions": ["birch parses every document the strict validator accepts", "inflate is a function of the compressed bytes"],
     },
     "C11": {
-        "streams": ["meta"],
+        "streams": ["meta", "hist"],
         "rule": "meta: streams with zero, one or several metadata documents (type as int32/int64/double incl. -0.0) interleaved with chunks from the reference "
                 "encoder and from every real collector with SetMetadata; Metadata() read after every Next of the chunk, document, matrix and series iterators. "
                 "Distinct = distinct byte stream.",
